@@ -362,7 +362,7 @@ def decide(ck, reqs, impl, model, cov):
 
 
 def run(ck):
-    n_arrays = 1900 if ck.quick() else 36000
+    n_arrays = 2600 if ck.quick() else 36000
     # 1. translator
     rc, out = vlib.sh([sys.executable, os.path.join(vlib.VERIF, "translator", "gen_consts.py")])
     ck.log(out.strip())
